@@ -1,5 +1,7 @@
 import PytezosModel.Michelson.Interp.Syntax
 import PytezosModel.Michelson.Collections
+import PytezosModel.Michelson.Arith
+import PytezosModel.Micheline.Lower
 import PytezosModel.Generated.C01
 /-! `Impl.exec` — mirror of the `execute` methods of src/pytezos/michelson/instructions/*.py over the
 `MichelsonStack` of src/pytezos/michelson/stack.py (`items` + `protected` prefix).
@@ -517,6 +519,201 @@ def execSlice (o l v : Val) : Res Val :=
     | _, _ => .stuck
   else .stuck
 
+/-- BYTES after `pop1`: `a.assert_type_in(NatType, IntType)` (`issubclass`: every integer class passes),
+`signed = not isinstance(a, NatType)` (`mutez` derives from `nat`), `length = (8 + (v + (v < 0)).bit_length()) // 8 if v
+else 0` / `(7 + v.bit_length()) // 8`, `v.to_bytes(length, 'big', signed=signed)` (CPython's `bit_length` / `to_bytes` are
+`PyNum`, Michelson/Arith.lean; an OverflowError — a negative `nat` — is an error) -/
+def execBytes (a : Val) : Res Val :=
+  match a with
+  | .num t x =>
+    let signed := !(t == .nat || t == .mutez)
+    let length := if signed then (if x ≠ 0 then _root_.Impl.Arith.signedLen x else 0) else _root_.Impl.Arith.unsignedLen x
+    match PyNum.toBytes x length signed with
+    | some bs => .ok (.bytes bs)
+    | none => .stuck
+  | _ => .stuck
+
+/-- NAT after `pop1`: `a.assert_type_in(BytesType)`, `NatType.from_value(int.from_bytes(bytes(a), 'big'))` -/
+def execNat (a : Val) : Res Val :=
+  match a with
+  | .bytes b => numFromValue .nat (PyNum.fromBytes b false)
+  | _ => .stuck
+
+/-- VOTING_POWER after `pop1`: `address.assert_type_equal(KeyHashType)`,
+`NatType.from_value(context.get_voting_power(str(address)))` -/
+def execVotingPower (env : Env) (a : Val) : Res Val :=
+  match a with
+  | .atom .keyHash s => numFromValue .nat (env.votingPower s)
+  | _ => .stuck
+
+/-- HASH_KEY after `pop1`: `a.assert_type_equal(KeyType)`,
+`KeyHashType.from_value(Key.from_encoded_key(str(a)).public_key_hash())` -/
+def execHashKey (env : Env) (a : Val) : Res Val :=
+  match a with
+  | .atom .key s => .ok (.atom .keyHash (env.hashes.hashKey s))
+  | _ => .stuck
+
+/-! Phase C: address texts as Python handles them -/
+/-- `value.partition('%')`: the text before the first `%` and the text after it -/
+def pyPartition (s : List Nat) : List Nat × List Nat := (s.takeWhile (· != 37), (s.dropWhile (· != 37)).drop 1)
+
+/-- `AddressType.from_value(value)` (also `ContractType.from_value`): `address, _, entrypoint = value.partition('%')`,
+`if entrypoint == 'default': value = address` (`assert is_address(value)` concerns the opaque base58 part) -/
+def addrFromValue (s : List Nat) : List Nat := if (pyPartition s).2 = defaultEp then (pyPartition s).1 else s
+
+/-- `AddressType._split()`: `address, _, entrypoint = self.value.partition('%')`; `return address, entrypoint or 'default'` -/
+def pySplit (s : List Nat) : List Nat × List Nat :=
+  ((pyPartition s).1, if (pyPartition s).2 = [] then defaultEp else (pyPartition s).2)
+
+/-- `is_pkh(address)`: a `tz…` text (the base58 check itself concerns the opaque part) -/
+def isPkh (a : List Nat) : Bool := a.take 2 == [116, 122]
+
+/-- ADDRESS after `pop1`: `contract.assert_type_in(ContractType)`, `AddressType.from_value(str(contract))` -/
+def execAddress (a : Val) : Res Val :=
+  match a with
+  | .contract _ s => .ok (.atom .address (addrFromValue s))
+  | _ => .stuck
+
+/-- IMPLICIT_ACCOUNT after `pop1`: `key_hash.assert_type_equal(KeyHashType)`,
+`ContractType.create_type(args=[UnitType]).from_value(str(key_hash))` -/
+def execImplicitAccount (a : Val) : Res Val :=
+  match a with
+  | .atom .keyHash s => .ok (.contract .unit (addrFromValue s))
+  | _ => .stuck
+
+/-- `CONTRACT %entrypoint t` after `pop1` (no node: `get_entrypoint_type` answers `None` for an originated address —
+"skip type checking"): `contract_address, address_entrypoint = address._split()`; inside the `try`: `assert 'default' in
+(address_entrypoint, entrypoint)`, `if entrypoint == 'default': entrypoint = address_entrypoint`, `if
+is_pkh(contract_address): assert entrypoint == 'default'; assert t.prim in ('unit', 'ticket')` (`Ty` has no ticket type,
+so: `t = unit`),
+`OptionType.from_some(contract_type.from_value(f'{contract_address}%{entrypoint}'))`; a failed assertion gives
+`OptionType.none(contract_type)` -/
+def execContract (t : Ty) (entrypoint : List Nat) (a : Val) : Res Val :=
+  match a with
+  | .atom .address s =>
+    let contractAddress := (pySplit s).1
+    let addressEntrypoint := (pySplit s).2
+    if addressEntrypoint ≠ defaultEp ∧ entrypoint ≠ defaultEp then .ok (.none (.contract t))
+    else
+      let ep := if entrypoint = defaultEp then addressEntrypoint else entrypoint
+      if isPkh contractAddress ∧ ¬ (ep = defaultEp ∧ t = .unit) then .ok (.none (.contract t))
+      else .ok (.some (.contract t (addrFromValue (contractAddress ++ 37 :: ep))))
+  | _ => .stuck
+
+/-- SET_DELEGATE after `pop1`: `delegate.assert_type_equal(option key_hash)`,
+`OperationType.delegation(source=context.get_self_address(), delegate=None if delegate.is_none() else str(delegate.get_some()))` -/
+def execSetDelegate (env : Env) (a : Val) : Res Val :=
+  match a with
+  | .none .keyHash => .ok (.opDelegate env.self none)
+  | .some (.atom .keyHash s) => .ok (.opDelegate env.self (some s))
+  | _ => .stuck
+
+/-- `EMIT %tag t` after `pop1`: `payload.assert_type_equal(event_type)`, `OperationType.event(source=…, event_type, payload, tag)` -/
+def execEmit (env : Env) (tag : List Nat) (t : Ty) (a : Val) : Res Val :=
+  if typeOf a = t then .ok (.opEmit env.self tag t a) else .stuck
+
+/-- TRANSFER_TOKENS after `pop3`: `amount.assert_type_equal(MutezType)`, `isinstance(destination, ContractType)`,
+`parameter.assert_type_equal(destination.args[0])` (no node: no second check), `OperationType.transaction(source=self,
+destination=destination.get_address(), amount=int(amount), entrypoint=destination.get_entrypoint(), value=…, param_type)` -/
+def execTransferTokens (env : Env) (parameter amount destination : Val) : Res Val :=
+  match amount, destination with
+  | .num .mutez m, .contract t s =>
+    if typeOf parameter = t then .ok (.opTransfer env.self (pySplit s).1 (pySplit s).2 m parameter t) else .stuck
+  | _, _ => .stuck
+
+/-! Phase B (first half): `a.pack()` = `b'\x05' + forge_micheline(a.to_micheline_value(mode='optimized'))` -/
+/-- `prim_tags[name]` (the table `forge_micheline` uses, read from the source by property C05's translator) -/
+def primTagOf (name : String) : Option Nat := _root_.Impl.Lower.primTag name
+
+def primNode (name : String) (args : List BMich) : Option BMich := (primTagOf name).map fun t => .prim t args none
+
+/-- the tail of `PairType.to_micheline_value` in mode `optimized`, given `args`: `len(args) == 2` → `Pair`, `== 3` →
+`Pair a (Pair b c)`, `>= 4` → the list itself, else `raise AssertionError` -/
+def pairNode (args : List BMich) : Option BMich :=
+  if args.length = 2 then primNode "Pair" args
+  else if args.length = 3 then
+    match args with
+    | [x, y, z] => (primNode "Pair" [y, z]).bind fun inner => primNode "Pair" [x, inner]
+    | _ => none
+  else if args.length ≥ 4 then some (.seq args)
+  else none
+
+mutual
+  /-- first component: `v.to_micheline_value(mode='optimized')` with the primitives looked up in `prim_tags`; second:
+  `[x.to_micheline_value(…) for x in v.iter_comb()]` if `v` is a pair (what the enclosing pair's `iter_comb` yields for its
+  second item), else the one-element list.  `none`: a class outside the model (or a primitive missing from the table) -/
+  def toMichBoth : Val → Option (BMich × List BMich)
+    | .pair a b =>
+      match toMichBoth a, toMichBoth b with
+      | some x, some y => (pairNode (x.1 :: y.2)).map fun m => (m, x.1 :: y.2)
+      | _, _ => none
+    | .unit => (primNode "Unit" []).map fun m => (m, [m])
+    | .bool b => (primNode (if b then "True" else "False") []).map fun m => (m, [m])
+    | .num _ v => some (.int v, [.int v])
+    | .str s => some (.str s, [.str s])
+    | .bytes b => some (.bytes b, [.bytes b])
+    | .some v => (toMichBoth v).bind fun x => (primNode "Some" [x.1]).map fun m => (m, [m])
+    | .none _ => (primNode "None" []).map fun m => (m, [m])
+    | .left v _ => (toMichBoth v).bind fun x => (primNode "Left" [x.1]).map fun m => (m, [m])
+    | .right _ v => (toMichBoth v).bind fun x => (primNode "Right" [x.1]).map fun m => (m, [m])
+    | .list _ xs => (toMichL xs).map fun ys => (.seq ys, [.seq ys])
+    | .set _ xs => (toMichL xs).map fun ys => (.seq ys, [.seq ys])
+    | .map _ _ xs => (toMichE xs).map fun ys => (.seq ys, [.seq ys])
+    | _ => none
+  def toMichL : List Val → Option (List BMich)
+    | [] => some []
+    | x :: xs =>
+      match toMichBoth x, toMichL xs with
+      | some y, some ys => some (y.1 :: ys)
+      | _, _ => none
+  /-- `[{'prim': 'Elt', 'args': [x.to_micheline_value(…) for x in elt]} for elt in self]` -/
+  def toMichE : List Val → Option (List BMich)
+    | [] => some []
+    | .pair k v :: xs =>
+      match toMichBoth k, toMichBoth v, toMichE xs with
+      | some a, some b, some ys => (primNode "Elt" [a.1, b.1]).map fun e => e :: ys
+      | _, _, _ => none
+    | _ :: _ => none
+end
+
+/-- PACK after `pop1`: `BytesType.from_value(a.pack())`; `forge_micheline` is property C05's mirror `Impl.Forge.forge`
+(an `OverflowError` of `len(data).to_bytes(4, 'big')` is the runtime failure) -/
+def execPack (a : Val) : Res Val :=
+  match toMichBoth a with
+  | none => .stuck
+  | some m =>
+    match _root_.Impl.Forge.forge m.1 with
+    | some bs => .ok (.bytes (5 :: bs))
+    | none => .rtfail
+
+/-- the instructions of extension 2 of the shape `a = stack.pop1(); a.assert_type_…(…); res = …; stack.push(res)`:
+`res` for the popped `a` -/
+def execUn (env : Env) (i : Instr) (a : Val) : Res Val :=
+  match i with
+  | .NAT => execNat a
+  | .BYTES => execBytes a
+  | .VOTING_POWER => execVotingPower env a
+  | .HASH_KEY => execHashKey env a
+  | .ADDRESS => execAddress a
+  | .IMPLICIT_ACCOUNT => execImplicitAccount a
+  | .CONTRACT t ep => execContract t ep a
+  | .SET_DELEGATE => execSetDelegate env a
+  | .EMIT tag t => execEmit env tag t a
+  | .PACK => execPack a
+  | _ => .stuck
+
+/-- the instructions of extension 2 -/
+def stepExt (env : Env) (i : Instr) (s : Stack) : Res Stack :=
+  match i with
+  -- NEVER: `never = stack.pop1(); never.assert_type_equal(NeverType)`; nothing is pushed
+  | .NEVER => do let (a, s) ← s.pop1; if typeOf a = .never then pure s else .stuck
+  -- `SELF %entrypoint`: `res_type.from_value(f'{self_address}%{entrypoint}')`, `res_type = contract self_type` where
+  -- `self_type = get_entrypoint_type(context, entrypoint)` is the type the instruction form carries (looked up in the
+  -- parameter section at the driver boundary)
+  | .SELF ep t => pure (s.push (.contract t (addrFromValue (env.self ++ 37 :: ep))))
+  | .TRANSFER_TOKENS => do let (a, b, c, s) ← s.pop3; let r ← execTransferTokens env a b c; pure (s.push r)
+  | i => do let (a, s) ← s.pop1; let r ← execUn env i a; pure (s.push r)
+
 /-- further instructions without sub-programs (kept apart from `step` so that either pattern match stays small) -/
 def stepMore (env : Env) (i : Instr) (s : Stack) : Res Stack :=
   match i with
@@ -529,7 +726,7 @@ def stepMore (env : Env) (i : Instr) (s : Stack) : Res Stack :=
   | .SHA3 => do let (a, s) ← s.pop1; let r ← execHash env.hashes.sha3 a; pure (s.push r)
   | .CAST _ => do let (a, s) ← s.pop1; pure (s.push a)      -- the cast itself is commented out in the source
   | .RENAME => pure s
-  | _ => .stuck
+  | i => stepExt env i s
 
 /-- instructions that touch only the top of the stack -/
 def step (env : Env) (i : Instr) (s : Stack) : Res Stack :=
@@ -677,6 +874,9 @@ def step (env : Env) (i : Instr) (s : Stack) : Res Stack :=
   | .INT => do
       let (a, s) ← s.pop1
       match a with
+      | .bytes b => do      -- `isinstance(a, BytesType)`: `IntType.from_value(int.from_bytes(bytes(a), 'big', signed=True))`
+          let r ← numFromValue .int (PyNum.fromBytes b true)
+          pure (s.push r)
       | .num .nat x => pure (s.push (.num .int x))
       | _ => .stuck
   | .COMPARE => do
